@@ -3,6 +3,7 @@ package main
 import (
 	"go/token"
 	"go/types"
+	"strings"
 
 	"golang.org/x/tools/go/ssa"
 )
@@ -41,9 +42,16 @@ func isBinlogEventChan(t types.Type) bool {
 	return ok && namedIs(ch.Elem(), replPath, "BinlogEvent")
 }
 
-func resolveRoles(a *A, rule string) *Roles {
+func resolveRoles(a *A, rule string) *Roles { return resolveRolesG(a, rule, "ptc") }
+
+// resolveRolesG resolves only the groups of roles a check needs, so that a rewrite of one part of the package cannot make
+// the anchors of an unrelated check fail: "p" = the parser's dispatch skeleton (select, received event, validity gate,
+// checksum stripping, format variable, table cache), "t" = the transaction state (commit/begin closures, position, buffer
+// and flag cells), "c" = the connection side (constructor, dump starter, reader goroutine, packet decoder, close).
+func resolveRolesG(a *A, rule string, groups string) *Roles {
 	w := a.W
 	r := &Roles{}
+	want := func(g string) bool { return strings.Contains(groups, g) }
 	r.Stream = w.method(w.Root, "Streamer", "Stream")
 	r.ErrorM = w.method(w.Root, "Streamer", "Error")
 	r.SetPos = w.method(w.Root, "Streamer", "SetBinlogPosition")
@@ -92,258 +100,272 @@ func resolveRoles(a *A, rule string) *Roles {
 			}
 		}
 	})
-	if !a.need(r.Parser != nil, rule, "parser (callee of Stream taking <-chan BinlogEvent)") ||
-		!a.need(r.StartDump != nil, rule, "dump starter (callee of Stream returning <-chan BinlogEvent)") ||
-		!a.need(r.NewConn != nil, rule, "connection constructor (callee of Stream returning *slaveConnection)") {
+	if (want("p") || want("t")) && !a.need(r.Parser != nil, rule, "parser (callee of Stream taking <-chan BinlogEvent)") {
 		return nil
 	}
-	// closures of the parser: commit = the one that (itself or through nested closures) calls the handler;
-	// begin = a niladic one that clears a captured bool (the open/closed flag) and does not call the handler
-	callsHandler := func(f *ssa.Function) bool {
-		found := false
-		var walk func(g *ssa.Function)
-		walk = func(g *ssa.Function) {
-			instrs(g, func(in ssa.Instruction) {
-				if c := callCommon(in); c != nil && !c.IsInvoke() && namedIs(c.Value.Type(), rootPath, "SendTransactionFunc") {
-					found = true
+	if want("c") && (!a.need(r.StartDump != nil, rule, "dump starter (callee of Stream returning <-chan BinlogEvent)") ||
+		!a.need(r.NewConn != nil, rule, "connection constructor (callee of Stream returning *slaveConnection)")) {
+		return nil
+	}
+	if want("t") {
+		// closures of the parser: commit = the one that (itself or through nested closures) calls the handler;
+		// begin = a niladic one that clears a captured bool (the open/closed flag) and does not call the handler
+		callsHandler := func(f *ssa.Function) bool {
+			found := false
+			var walk func(g *ssa.Function)
+			walk = func(g *ssa.Function) {
+				instrs(g, func(in ssa.Instruction) {
+					if c := callCommon(in); c != nil && !c.IsInvoke() && namedIs(c.Value.Type(), rootPath, "SendTransactionFunc") {
+						found = true
+					}
+				})
+				for _, n := range g.AnonFuncs {
+					walk(n)
+				}
+			}
+			walk(f)
+			return found
+		}
+		for _, an := range r.Parser.AnonFuncs {
+			if callsHandler(an) {
+				// several closures may call the handler (that is C02-R1's business); the commit closure is the one taking the event
+				takesEvent := an.Signature.Params().Len() == 1 && namedIs(an.Signature.Params().At(0).Type(), replPath, "BinlogEvent")
+				if r.Commit == nil || takesEvent {
+					r.Commit = an
+				}
+				continue
+			}
+			if an.Signature.Params().Len() != 0 || an.Signature.Results().Len() != 0 {
+				continue
+			}
+			clearsFlag := false
+			instrs(an, func(in ssa.Instruction) {
+				if st, ok := in.(*ssa.Store); ok {
+					if b, isC := constBool(st.Val); isC && !b {
+						if _, isFV := st.Addr.(*ssa.FreeVar); isFV {
+							clearsFlag = true
+						}
+					}
 				}
 			})
-			for _, n := range g.AnonFuncs {
-				walk(n)
+			if clearsFlag {
+				r.Begin = an
 			}
 		}
-		walk(f)
-		return found
-	}
-	for _, an := range r.Parser.AnonFuncs {
-		if callsHandler(an) {
-			// several closures may call the handler (that is C02-R1's business); the commit closure is the one taking the event
-			takesEvent := an.Signature.Params().Len() == 1 && namedIs(an.Signature.Params().At(0).Type(), replPath, "BinlogEvent")
-			if r.Commit == nil || takesEvent {
-				r.Commit = an
+		if !a.need(r.Commit != nil, rule, "commit closure (closure of the parser that calls the handler)") ||
+			!a.need(r.Begin != nil, rule, "begin closure (niladic closure of the parser)") {
+			return nil
+		}
+		instrs(r.Parser, func(in ssa.Instruction) {
+			switch x := in.(type) {
+			case *ssa.MakeClosure:
+				if x.Fn == r.Commit {
+					r.CommitMC = x
+				}
+				if x.Fn == r.Begin {
+					r.BeginMC = x
+				}
 			}
-			continue
+		})
+		if !a.need(r.CommitMC != nil && r.BeginMC != nil, rule, "closure construction sites") {
+			return nil
 		}
-		if an.Signature.Params().Len() != 0 || an.Signature.Results().Len() != 0 {
-			continue
+		// cells captured by the commit closure, by type
+		for _, b := range r.CommitMC.Bindings {
+			al, ok := b.(*ssa.Alloc)
+			if !ok {
+				continue
+			}
+			et := al.Type().(*types.Pointer).Elem()
+			switch {
+			case namedIs(et, rootPath, "Position"):
+				r.Pos = newCell(al)
+			case types.Identical(et, types.Typ[types.Bool]):
+				r.Auto = newCell(al)
+			case types.Identical(et, types.Universe.Lookup("error").Type()):
+				r.Err = newCell(al)
+			default:
+				if sl, ok := et.Underlying().(*types.Slice); ok && typeIs(sl.Elem(), rootPath, "StreamEvent") {
+					r.Tran = newCell(al)
+				}
+			}
 		}
-		clearsFlag := false
-		instrs(an, func(in ssa.Instruction) {
-			if st, ok := in.(*ssa.Store); ok {
-				if b, isC := constBool(st.Val); isC && !b {
-					if _, isFV := st.Addr.(*ssa.FreeVar); isFV {
-						clearsFlag = true
+		if !a.need(r.Pos != nil, rule, "position cell (Position variable captured by the commit closure)") ||
+			!a.need(r.Tran != nil, rule, "transaction buffer cell ([]*StreamEvent captured by the commit closure)") ||
+			!a.need(r.Auto != nil, rule, "autocommit cell (bool captured by the commit closure)") {
+			return nil
+		}
+		// the position cell is initialised from a method that loads nowPos
+		for _, s := range r.Pos.stores() {
+			if s.Fn == r.Parser && s.Field == "" {
+				if c, ok := s.Store.Val.(*ssa.Call); ok {
+					if f := c.Common().StaticCallee(); f != nil && f.Pkg == w.Root {
+						r.GetPos = f
+					}
+				}
+			}
+		}
+		if !a.need(r.GetPos != nil, rule, "position getter (initialiser of the position cell)") {
+			return nil
+		}
+	} // txn
+	if want("p") {
+		instrs(r.Parser, func(in ssa.Instruction) {
+			switch x := in.(type) {
+			case *ssa.Select:
+				if r.Select == nil {
+					r.Select = x
+				}
+			case *ssa.MakeMap:
+				if m, ok := x.Type().Underlying().(*types.Map); ok && typeIs(m.Elem(), rootPath, "tableCache") {
+					r.Tables = x
+				}
+			}
+		})
+		if !a.need(r.Select != nil, rule, "parser select") || !a.need(r.Tables != nil, rule, "table cache map") {
+			return nil
+		}
+		// select → raw event → IsValid → StripChecksum
+		r.LoopHead = r.Select.Block()
+		for _, ref := range *r.Select.Referrers() {
+			if ex, ok := ref.(*ssa.Extract); ok && namedIs(ex.Type(), replPath, "BinlogEvent") {
+				r.RawEv = ex
+			}
+		}
+		if !a.need(r.RawEv != nil, rule, "received event (extract of the parser select)") {
+			return nil
+		}
+		instrs(r.Parser, func(in ssa.Instruction) {
+			c, ok := in.(*ssa.Call)
+			if !ok || !c.Common().IsInvoke() {
+				return
+			}
+			switch c.Common().Method.Name() {
+			case "IsValid":
+				if c.Common().Value == r.RawEv && r.IsValidCall == nil {
+					r.IsValidCall = c
+				}
+			case "StripChecksum":
+				if r.StripCall == nil {
+					r.StripCall = c
+				}
+			}
+		})
+		if !a.need(r.IsValidCall != nil, rule, "IsValid() call on the received event") ||
+			!a.need(r.StripCall != nil, rule, "StripChecksum call in the parser") {
+			return nil
+		}
+		for _, ref := range *r.StripCall.Referrers() {
+			if ex, ok := ref.(*ssa.Extract); ok && ex.Index == 0 {
+				r.StrippedEv = ex
+			}
+		}
+		if !a.need(r.StrippedEv != nil, rule, "stripped event (result 0 of StripChecksum)") {
+			return nil
+		}
+		if len(r.StripCall.Common().Args) == 1 {
+			r.FormatPhi = r.StripCall.Common().Args[0]
+		}
+		if !a.need(r.FormatPhi != nil, rule, "format variable (argument of StripChecksum)") {
+			return nil
+		}
+	} // parser core
+
+	if want("c") {
+		// connection side
+		instrs(r.StartDump, func(in ssa.Instruction) {
+			switch x := in.(type) {
+			case *ssa.Go:
+				if r.GoInstr == nil {
+					r.GoInstr = x
+				}
+			case *ssa.MakeChan:
+				if isBinlogEventChan(x.Type()) {
+					r.EventChan = x
+				}
+			}
+		})
+		if a.need(r.GoInstr != nil, rule, "go statement in the dump starter") {
+			switch v := r.GoInstr.Call.Value.(type) {
+			case *ssa.MakeClosure:
+				r.Reader = v.Fn.(*ssa.Function)
+			case *ssa.Function:
+				r.Reader = v
+			}
+		}
+		if !a.need(r.Reader != nil, rule, "reader goroutine body") || !a.need(r.EventChan != nil, rule, "event channel make") {
+			return nil
+		}
+		instrs(r.Reader, func(in ssa.Instruction) {
+			if c, ok := in.(*ssa.Call); ok {
+				if f := c.Common().StaticCallee(); f != nil && f.Pkg == w.Root {
+					calls := false
+					instrs(f, func(i2 ssa.Instruction) {
+						if cc := callCommon(i2); cc != nil && isInvokeOf(cc, "ReadPacket") {
+							calls = true
+						}
+					})
+					if calls {
+						r.ReadEvent = f
 					}
 				}
 			}
 		})
-		if clearsFlag {
-			r.Begin = an
+		if !a.need(r.ReadEvent != nil, rule, "packet decoder (reader's callee that calls ReadPacket)") {
+			return nil
 		}
-	}
-	if !a.need(r.Commit != nil, rule, "commit closure (closure of the parser that calls the handler)") ||
-		!a.need(r.Begin != nil, rule, "begin closure (niladic closure of the parser)") {
-		return nil
-	}
-	instrs(r.Parser, func(in ssa.Instruction) {
-		switch x := in.(type) {
-		case *ssa.MakeClosure:
-			if x.Fn == r.Commit {
-				r.CommitMC = x
-			}
-			if x.Fn == r.Begin {
-				r.BeginMC = x
-			}
-		case *ssa.Select:
-			if r.Select == nil {
-				r.Select = x
-			}
-		case *ssa.MakeMap:
-			if m, ok := x.Type().Underlying().(*types.Map); ok && typeIs(m.Elem(), rootPath, "tableCache") {
-				r.Tables = x
-			}
-		}
-	})
-	if !a.need(r.CommitMC != nil && r.BeginMC != nil, rule, "closure construction sites") ||
-		!a.need(r.Select != nil, rule, "parser select") || !a.need(r.Tables != nil, rule, "table cache map") {
-		return nil
-	}
-	// cells captured by the commit closure, by type
-	for _, b := range r.CommitMC.Bindings {
-		al, ok := b.(*ssa.Alloc)
-		if !ok {
-			continue
-		}
-		et := al.Type().(*types.Pointer).Elem()
-		switch {
-		case namedIs(et, rootPath, "Position"):
-			r.Pos = newCell(al)
-		case types.Identical(et, types.Typ[types.Bool]):
-			r.Auto = newCell(al)
-		case types.Identical(et, types.Universe.Lookup("error").Type()):
-			r.Err = newCell(al)
-		default:
-			if sl, ok := et.Underlying().(*types.Slice); ok && typeIs(sl.Elem(), rootPath, "StreamEvent") {
-				r.Tran = newCell(al)
-			}
-		}
-	}
-	if !a.need(r.Pos != nil, rule, "position cell (Position variable captured by the commit closure)") ||
-		!a.need(r.Tran != nil, rule, "transaction buffer cell ([]*StreamEvent captured by the commit closure)") ||
-		!a.need(r.Auto != nil, rule, "autocommit cell (bool captured by the commit closure)") {
-		return nil
-	}
-	// the position cell is initialised from a method that loads nowPos
-	for _, s := range r.Pos.stores() {
-		if s.Fn == r.Parser && s.Field == "" {
-			if c, ok := s.Store.Val.(*ssa.Call); ok {
+		instrs(r.NewConn, func(in ssa.Instruction) {
+			if c, ok := in.(*ssa.Call); ok {
 				if f := c.Common().StaticCallee(); f != nil && f.Pkg == w.Root {
-					r.GetPos = f
+					instrs(f, func(i2 ssa.Instruction) {
+						if cc := callCommon(i2); cc != nil && isInvokeOf(cc, "Exec") {
+							r.Prepare = f
+						}
+					})
+				}
+			}
+		})
+		sc := w.namedType(w.Root, "slaveConnection")
+		if a.need(sc != nil, rule, "slaveConnection type") {
+			st := sc.Underlying().(*types.Struct)
+			for i := 0; i < st.NumFields(); i++ {
+				f := st.Field(i)
+				if ch, ok := f.Type().Underlying().(*types.Chan); ok && typeIs(ch.Elem(), rootPath, "Error") {
+					r.ConnErrChan = f
+				}
+				if namedIs(f.Type(), rootPath, "dumpConn") {
+					r.ConnDC = f
 				}
 			}
 		}
-	}
-	if !a.need(r.GetPos != nil, rule, "position getter (initialiser of the position cell)") {
-		return nil
-	}
-	// select → raw event → IsValid → StripChecksum
-	r.LoopHead = r.Select.Block()
-	for _, ref := range *r.Select.Referrers() {
-		if ex, ok := ref.(*ssa.Extract); ok && namedIs(ex.Type(), replPath, "BinlogEvent") {
-			r.RawEv = ex
-		}
-	}
-	if !a.need(r.RawEv != nil, rule, "received event (extract of the parser select)") {
-		return nil
-	}
-	instrs(r.Parser, func(in ssa.Instruction) {
-		c, ok := in.(*ssa.Call)
-		if !ok || !c.Common().IsInvoke() {
-			return
-		}
-		switch c.Common().Method.Name() {
-		case "IsValid":
-			if c.Common().Value == r.RawEv && r.IsValidCall == nil {
-				r.IsValidCall = c
-			}
-		case "StripChecksum":
-			if r.StripCall == nil {
-				r.StripCall = c
-			}
-		}
-	})
-	if !a.need(r.IsValidCall != nil, rule, "IsValid() call on the received event") ||
-		!a.need(r.StripCall != nil, rule, "StripChecksum call in the parser") {
-		return nil
-	}
-	for _, ref := range *r.StripCall.Referrers() {
-		if ex, ok := ref.(*ssa.Extract); ok && ex.Index == 0 {
-			r.StrippedEv = ex
-		}
-	}
-	if !a.need(r.StrippedEv != nil, rule, "stripped event (result 0 of StripChecksum)") {
-		return nil
-	}
-	if len(r.StripCall.Common().Args) == 1 {
-		r.FormatPhi = r.StripCall.Common().Args[0]
-	}
-	if !a.need(r.FormatPhi != nil, rule, "format variable (argument of StripChecksum)") {
-		return nil
-	}
-
-	// connection side
-	instrs(r.StartDump, func(in ssa.Instruction) {
-		switch x := in.(type) {
-		case *ssa.Go:
-			if r.GoInstr == nil {
-				r.GoInstr = x
-			}
-		case *ssa.MakeChan:
-			if isBinlogEventChan(x.Type()) {
-				r.EventChan = x
-			}
-		}
-	})
-	if a.need(r.GoInstr != nil, rule, "go statement in the dump starter") {
-		switch v := r.GoInstr.Call.Value.(type) {
-		case *ssa.MakeClosure:
-			r.Reader = v.Fn.(*ssa.Function)
-		case *ssa.Function:
-			r.Reader = v
-		}
-	}
-	if !a.need(r.Reader != nil, rule, "reader goroutine body") || !a.need(r.EventChan != nil, rule, "event channel make") {
-		return nil
-	}
-	instrs(r.Reader, func(in ssa.Instruction) {
-		if c, ok := in.(*ssa.Call); ok {
-			if f := c.Common().StaticCallee(); f != nil && f.Pkg == w.Root {
-				calls := false
-				instrs(f, func(i2 ssa.Instruction) {
-					if cc := callCommon(i2); cc != nil && isInvokeOf(cc, "ReadPacket") {
-						calls = true
-					}
-				})
-				if calls {
-					r.ReadEvent = f
+		// close: method of *slaveConnection deferred in Stream
+		instrs(r.Stream, func(in ssa.Instruction) {
+			if d, ok := in.(*ssa.Defer); ok {
+				if f := d.Call.StaticCallee(); f != nil && f.Pkg == w.Root && f.Signature.Recv() != nil &&
+					typeIs(f.Signature.Recv().Type(), rootPath, "slaveConnection") {
+					r.CloseConn = f
 				}
 			}
+		})
+		if r.CloseConn == nil {
+			// fall back: the method that reaches dc.Close
+			r.CloseConn = w.method(w.Root, "slaveConnection", "close")
 		}
-	})
-	if !a.need(r.ReadEvent != nil, rule, "packet decoder (reader's callee that calls ReadPacket)") {
-		return nil
-	}
-	instrs(r.NewConn, func(in ssa.Instruction) {
-		if c, ok := in.(*ssa.Call); ok {
-			if f := c.Common().StaticCallee(); f != nil && f.Pkg == w.Root {
+		if r.Prepare == nil {
+			// not reachable from the constructor: any function of the package that calls Exec (C07 decides whether it runs)
+			for _, f := range w.srcFuncs(w.Root) {
 				instrs(f, func(i2 ssa.Instruction) {
-					if cc := callCommon(i2); cc != nil && isInvokeOf(cc, "Exec") {
+					if cc := callCommon(i2); cc != nil && isInvokeOf(cc, "Exec") && r.Prepare == nil {
 						r.Prepare = f
 					}
 				})
 			}
 		}
-	})
-	sc := w.namedType(w.Root, "slaveConnection")
-	if a.need(sc != nil, rule, "slaveConnection type") {
-		st := sc.Underlying().(*types.Struct)
-		for i := 0; i < st.NumFields(); i++ {
-			f := st.Field(i)
-			if ch, ok := f.Type().Underlying().(*types.Chan); ok && typeIs(ch.Elem(), rootPath, "Error") {
-				r.ConnErrChan = f
-			}
-			if namedIs(f.Type(), rootPath, "dumpConn") {
-				r.ConnDC = f
-			}
+		if !a.need(r.ConnErrChan != nil && r.ConnDC != nil, rule, "slaveConnection fields (chan *Error, dumpConn)") ||
+			!a.need(r.CloseConn != nil, rule, "connection close method") {
+			return nil
 		}
-	}
-	// close: method of *slaveConnection deferred in Stream
-	instrs(r.Stream, func(in ssa.Instruction) {
-		if d, ok := in.(*ssa.Defer); ok {
-			if f := d.Call.StaticCallee(); f != nil && f.Pkg == w.Root && f.Signature.Recv() != nil &&
-				typeIs(f.Signature.Recv().Type(), rootPath, "slaveConnection") {
-				r.CloseConn = f
-			}
-		}
-	})
-	if r.CloseConn == nil {
-		// fall back: the method that reaches dc.Close
-		r.CloseConn = w.method(w.Root, "slaveConnection", "close")
-	}
-	if r.Prepare == nil {
-		// not reachable from the constructor: any function of the package that calls Exec (C07 decides whether it runs)
-		for _, f := range w.srcFuncs(w.Root) {
-			instrs(f, func(i2 ssa.Instruction) {
-				if cc := callCommon(i2); cc != nil && isInvokeOf(cc, "Exec") && r.Prepare == nil {
-					r.Prepare = f
-				}
-			})
-		}
-	}
-	if !a.need(r.ConnErrChan != nil && r.ConnDC != nil, rule, "slaveConnection fields (chan *Error, dumpConn)") ||
-		!a.need(r.CloseConn != nil, rule, "connection close method") {
-		return nil
-	}
+	} // conn
 	a.touch(r.Stream, r.ErrorM, r.SetPos, r.NewStreamer, r.GetPos, r.Parser, r.Commit, r.Begin,
 		r.NewConn, r.StartDump, r.Reader, r.ReadEvent, r.CloseConn)
 	if r.Prepare != nil {
